@@ -248,6 +248,8 @@ def run(ctx: Context) -> None:
     # R2: snap soundness
     ctx.rule(c17.r1_r3_get_closest)
     ctx.rule(c17.r2_digitize)
+    # the snapped value must also *stay* a grid element when it is stored: an output buffer of the input's dtype truncates it (integer history rows)
+    ctx.rule(c17.dtype_rule)
     # R3: row-count plumbing
     ctx.rule(r3_rows, base)
     # surrogates return the first batch_size rows of a pool of candidate_pool_size rows: the pool must not be thinned before the prefix is taken
